@@ -39,6 +39,9 @@ func DecodeEscape(in *bytes.Buffer, byteMode bool) (out *bytes.Buffer, err error
 			if byteMode {
 				out.WriteByte(byte(cout))
 			} else {
+				if cout > 0x10ffff {
+					return py.ExceptionNewf(py.ValueError, "illegal Unicode character in \\%c escape at position %d", what, i-2)
+				}
 				out.WriteRune(rune(cout))
 			}
 		} else {
